@@ -233,21 +233,95 @@ def lfpLoop (lk : String → List Tuple) (h : String) (base : List Tuple) (recs 
       let x' := unionT base d
       if sameSet x' x then some x else lfpLoop lk h base recs fuel x'
 
+/-! #### recursive min/max heads: aggregation in the loop (code_generator:1039-1187, repaired by
+  fixes/C07-recursive_minmax_head.diff: the recursive body is projected onto the head columns
+  before it is concatenated with the base case, the in-loop `reduce` keys on the leading columns) -/
+
+/-- column names of the rule body as `build_ir` lays them out: join output, then computed columns. -/
+def bodySchema (r : Rule) : List String :=
+  match posWithIdx r.body 0 with
+  | [] => []
+  | (bi, a) :: rest =>
+    let first := scanNames bi 0 a.args
+    let joined := ((joinLevels r.cmps rest first).getLast?.map (·.out)).getD first
+    match buildCmps r.posVars r.cmps with
+    | some (cols, _) => joined ++ cols.map (·.1)
+    | none => joined
+
+/-- `extract_minmax_aggregation` (code_generator:1003) on the tree of a clause: the top node is an
+    `Aggregate` with exactly one aggregation, `min` or `max` — i.e. the head is plain variables
+    followed by one `min<..>`/`max<..>` (an aggregate elsewhere in the head puts a `Map` on top).
+    Result: (group-by positions in the body schema, aggregated position, is-min). -/
+def aggSig (r : Rule) : Option (List Nat × Nat × Bool) :=
+  match r.hargs.reverse with
+  | .agg f x :: front =>
+    let isMin? := match f with | .min => some true | .max => some false | _ => none
+    let sch := bodySchema r
+    match isMin?, optMapM (fun (t : HTerm) => match t with | .var y => firstPos y sch 0 | _ => none) front.reverse, firstPos x sch 0 with
+    | some m, some gb, some c => some (gb, c, m)
+    | _, _, _ => none
+  | _ => none
+
+/-- all recursive inputs have the same min/max signature. -/
+def aggInLoop (recs : List Rule) : Option (Nat × Bool) :=
+  match recs.map aggSig with
+  | some s :: rest => if rest.all (· == some s) then some (s.1.length, s.2.2) else none
+  | _ => none
+
+/-- the recursive body projected onto the head columns: plain head terms, then the aggregated variable. -/
+def projRows (r : Rule) (envs : List Env) : Option (List Tuple) :=
+  headRows (r.hargs.map (fun | .agg _ x => .var x | t => t)) envs
+
+def recRows (lk : String → List Tuple) : List Rule → Option (List Tuple)
+  | [] => some []
+  | r :: rs =>
+    match bodyEnvsM false lk r, recRows lk rs with
+    | some envs, some rest => (projRows r envs).map (· ++ rest)
+    | _, _ => none
+
+def betterV (isMin : Bool) (a b : Value) : Bool := if isMin then Value.cmp a b == .lt else Value.cmp a b == .gt
+
+/-- the best tuple of a non-empty group by column `g`. -/
+def bestOf (g : Nat) (isMin : Bool) : List Tuple → Option Tuple
+  | [] => none
+  | t :: ts => match bestOf g isMin ts with
+    | some b => some (if betterV isMin (b.getD g .null) (t.getD g .null) then b else t)
+    | none => some t
+
+/-- the in-loop `reduce`: one tuple per key (leading `g` columns), minimal / maximal in column `g`. -/
+def bestPerKey (g : Nat) (isMin : Bool) (ts : List Tuple) : List Tuple :=
+  (dedupT (ts.map (·.take g))).filterMap (fun k => bestOf g isMin (ts.filter (fun t => t.take g == k)))
+
+/-- The loop. `seen` accumulates every tuple that was in some iterate: the capture closure
+    (`inspect`, code_generator:1203) pushes every record it is handed regardless of the sign of its
+    diff, and a non-monotone loop *retracts* tuples (a key's earlier minimum) — those stay in the
+    answer. -/
+def lfpMinMax (lk : String → List Tuple) (h : String) (base : List Tuple) (recs : List Rule) (g : Nat) (isMin : Bool) :
+    Nat → List Tuple → List Tuple → Option (List Tuple)
+  | 0, _, _ => none
+  | fuel + 1, x, seen =>
+    match recRows (override lk h x) recs with
+    | none => none
+    | some d =>
+      let x' := bestPerKey g isMin (dedupT (base ++ d))
+      if sameSet x' x then some (unionT seen x) else lfpMinMax lk h base recs g isMin fuel x' (unionT seen x')
+
 def lfpSelf (fuel : Nat) (lk : String → List Tuple) (h : String) (cs : List Rule) : Option (List Tuple) :=
   -- `detect_recursive_union_for_relation` (code_generator:2322) counts *scan occurrences* of the head
   -- over all clauses; only if that count is below the number of clauses are the clauses split into
   -- base and recursive ones. Otherwise ("all inputs reference the relation") the stored facts of the
   -- head are the base case and every clause is iterated (code_generator:344-359).
-  -- A recursive clause with an aggregate head takes the min/max "aggregation in loop" path
-  -- (code_generator:1039-1187), where the clause body with the aggregate stripped is concatenated
-  -- with the base case *without projection to the head*; the loop variable then carries tuples of
-  -- the body's arity and column indices no longer mean what the builder intended. That path is
-  -- outside this model (`none` → `err:fragment`); it is reported by the Spec search of C07.
-  if cs.any (fun r => r.scans.contains h && r.hasAgg) then none else
   let occ := (cs.flatMap (fun r => r.body.filterMap (fun l => l.atom?.map (·.rel)))).count h
   let split := occ < cs.length
   let base := cs.filter (fun r => !r.scans.contains h)
   let recs := if split then cs.filter (fun r => r.scans.contains h) else cs
+  if cs.any (fun r => r.scans.contains h && r.hasAgg) then
+    -- an aggregate in a recursive clause: only the min/max aggregation-in-loop form is modelled;
+    -- any other aggregate inside a fix-point is outside this model (`none` → `err:fragment`)
+    match aggInLoop recs, (if split then evalRulesM false lk base else some (dedupT (lk h))) with
+    | some (g, isMin), some b => lfpMinMax lk h b recs g isMin fuel [] []
+    | _, _ => none
+  else
   match (if split then evalRulesM false lk base else some (dedupT (lk h))) with
   | none => none
   | some b => lfpLoop lk h b recs fuel []
